@@ -57,6 +57,9 @@ extern "C" {
 		g_sim.time_calls++;
 		time_t v = (time_t)g_sim.clock_now;
 		g_sim.clock_now += g_sim.clock_step;
+		// the simulated clock stays inside [1980-01-01, 2107-12-31], the range the DOS date field of a zip member can express
+		if (g_sim.clock_now < 315532800LL) g_sim.clock_now = 315532800LL;
+		if (g_sim.clock_now > 4354819199LL) g_sim.clock_now = 4354819199LL;
 		if (g_sim.clock_step) g_sim.fired["clock_jump_inside_op"]++;
 		g_log.ev("time", (uint64_t)v);
 		if (t) *t = v;
